@@ -80,6 +80,14 @@ def build(tier, seed):
             perms = rnd.sample(perms, 2)
         for p in perms:
             vs.append((p, 0, 9, 0))
+    # every ordered pair of the four switches, and each switch before/after a value flag: a flag must only touch its own setting
+    sw = [S, R, OVW, KEEP]
+    pairs = [(a, b) for a in sw for b in sw if a != b]
+    pairs += [(a, b) for a in sw for b in (D_A, DUP3)] + [(b, a) for a in sw for b in (D_A, DUP3)]
+    if tier == "thorough":
+        pairs += [(a, b) for a in (S_LONG, R_LONG) for b in (OVW, KEEP, RD_R, SD_S, P_OK)] + [(b, a) for a in (S_LONG, R_LONG) for b in (OVW, KEEP, RD_R, SD_S, P_OK)]
+    for pr in pairs:
+        vs.append((pr, 0, 9, 0))
     # symbolic numbers inside longer vectors
     vs += [((D_A, P_OK, RD_R), 0, 1, 4), ((P_OK, P_LONG), 0, 0, 5), ((DUP3, S), 0, 0, 3), ((S, DUP3), 0, 1, 3), ((DUP254, DUP3), 0, 1, 2)]
     if tier == "thorough":
